@@ -228,6 +228,12 @@ fn definite_comparison(
         ScalarValue::Timestamp(v) => *v as f64,
         _ => return false,
     };
+    // The interpreter orders floats by totalOrder (NaN last, -0.0 < +0.0); the
+    // IEEE operators below disagree with it on a NaN literal and on a zero
+    // literal when the range touches zero. Claim nothing there.
+    if val.is_nan() || (val == 0.0 && min <= 0.0 && max >= 0.0) {
+        return false;
+    }
     match effective_op {
         BinaryOp::Lt => max < val,
         BinaryOp::LtEq => max <= val,
